@@ -53,6 +53,18 @@ var (
 	c04Tmpls     = []string{"", "{{ .System }} {{ .Prompt }}", "{{ .Prompt }} -> {{ .Response }}"}
 )
 
+// c04HostNames: names that spell out the default registry host (and namespace) in other letter cases. They live in an
+// index space of their own (20000+) so that the indices of older cases and replays keep their meaning.
+var c04HostNames = []string{"REGISTRY.OLLAMA.AI/library/foo", "REGISTRY.OLLAMA.AI/library/bar", "Registry.Ollama.Ai/Library/foo", "registry.ollama.ai/LIBRARY/Foo:v1",
+	"REGISTRY.OLLAMA.AI/ns1/foo", "registry.ollama.ai/library/bar:V1"}
+
+func c04NameOf(i int) string {
+	if i >= 20000 {
+		return c04HostNames[(i-20000)%len(c04HostNames)]
+	}
+	return c04Names[i%len(c04Names)]
+}
+
 func c04Init() {
 	c04NamesOnce.Do(func() {
 		for _, host := range []string{"", "h.test/"} {
@@ -170,6 +182,13 @@ func c04Gen(t *rapid.T) c04Case {
 		} else {
 			o.Name = rapid.SampledFrom([]int{0, 1, 4, 5, 8, 12, 20, 21, 24, 40, 41, 44, 60, 61, 100, 104}).Draw(t, "name")
 			o.Name2 = rapid.SampledFrom([]int{0, 1, 4, 5, 8, 12, 20, 21, 24, 40, 41, 44, 60, 61, 100, 104}).Draw(t, "name2")
+		}
+		// one name in eight spells out the default host in another letter case
+		if rapid.IntRange(0, 7).Draw(t, "host_spelled") == 0 {
+			o.Name = 20000 + rapid.IntRange(0, len(c04HostNames)-1).Draw(t, "host_name")
+		}
+		if rapid.IntRange(0, 7).Draw(t, "host_spelled2") == 0 {
+			o.Name2 = 20000 + rapid.IntRange(0, len(c04HostNames)-1).Draw(t, "host_name2")
 		}
 		switch o.Kind {
 		case "create", "createfrom":
@@ -302,7 +321,13 @@ func (e *c04Env) list() (map[string]*c04Listed, error) {
 		if prev, dup := out[key]; dup {
 			return nil, fmt.Errorf("two listed models differ only by letter case: %q and %q", prev.display, m.Name)
 		}
-		mf, err := ParseNamedManifest(n)
+		// the listing prints the shortest form, which drops the default host and namespace whatever their letter case; the
+		// manifest lives under the spelling the model was stored with: find it the way the server does, ignoring case
+		stored, ferr := c04StoredName(n)
+		if ferr != nil {
+			return nil, fmt.Errorf("listed model %q: %v", m.Name, ferr)
+		}
+		mf, err := ParseNamedManifest(stored)
 		if err != nil {
 			return nil, fmt.Errorf("listed model %q has no readable manifest: %v", m.Name, err)
 		}
@@ -336,6 +361,31 @@ func (e *c04Env) list() (map[string]*c04Listed, error) {
 		out[key] = l
 	}
 	return out, nil
+}
+
+// c04StoredName finds the manifest file whose path equals n's, letter case ignored.
+func c04StoredName(n model.Name) (model.Name, error) {
+	root, err := GetManifestPath()
+	if err != nil {
+		return n, err
+	}
+	var hits []string
+	filepath.Walk(root, func(p string, fi os.FileInfo, err error) error {
+		if err == nil && !fi.IsDir() {
+			if rel, rerr := filepath.Rel(root, p); rerr == nil && strings.EqualFold(filepath.ToSlash(rel), filepath.ToSlash(n.Filepath())) {
+				hits = append(hits, rel)
+			}
+		}
+		return nil
+	})
+	switch len(hits) {
+	case 0:
+		return n, nil // ParseNamedManifest reports the missing file
+	case 1:
+		return model.ParseNameFromFilepath(hits[0]), nil
+	}
+	sort.Strings(hits)
+	return n, fmt.Errorf("two stored models differ only by letter case: manifests/%s and manifests/%s", hits[0], hits[1])
 }
 
 func c04Key(s string) string { return strings.ToLower(model.ParseName(s).String()) }
@@ -429,8 +479,8 @@ func c04RunInner(c c04Case) (classes []string, nontrivial bool, err error) {
 		return nil, false, err
 	}
 	for i, o := range c.Ops {
-		name := c04Names[o.Name%len(c04Names)]
-		name2 := c04Names[o.Name2%len(c04Names)]
+		name := c04NameOf(o.Name)
+		name2 := c04NameOf(o.Name2)
 		addressed := map[string]bool{}
 		desc := o.Kind
 		var opErr error
@@ -743,7 +793,7 @@ func c04RunInner(c c04Case) (classes []string, nontrivial bool, err error) {
 				}
 				for k := range addressed {
 					for k2, o2 := range before {
-						if k2 == k && o2.display != c04Names[o.Name%len(c04Names)] && strings.EqualFold(o2.name.String(), model.ParseName(name).String()) && o2.name.String() != model.ParseName(name).String() {
+						if k2 == k && o2.display != c04NameOf(o.Name) && strings.EqualFold(o2.name.String(), model.ParseName(name).String()) && o2.name.String() != model.ParseName(name).String() {
 							nontrivial = true
 							e.cls["name_differs_only_by_case"] = true
 						}
